@@ -186,6 +186,18 @@ def stepLine (st : State) (toks : List String) : State × String :=
     match parseNat addr, n.toNat? with
     | some a, some n => (st, accStr (register_block_touches_hole t a n))
     | _, _ => (st, "bad-op")
+  | ["rt.userinit", k] =>
+    -- `register_user_init`: the callback is asked for every register in table order until it reports failure
+    -- (here: for entry k); the table is not touched
+    match k.toNat? with
+    | some k =>
+      let r : Access := if !t.initialised then ⟨.uninitialised, 0⟩
+        else match t.entries[k]? with
+          | some e => ⟨.failure, e.address⟩
+          | none => ⟨.success, 0⟩
+      let calls := if !t.initialised then 0 else min (k + 1) t.entries.length
+      (st, s!"{accStr r} calls={calls} {stateStr t}")
+    | none => (st, "bad-op")
   | ["rt.sanitise"] =>
     let (r, t') := register_sanitise cb t
     ({ t := t' }, s!"{accStr r} {stateStr t'}")
